@@ -6,7 +6,8 @@ with tempfile.TemporaryDirectory() as d:
     x = os.path.join(d, "j.xml")
     subprocess.run(["/venv/bin/python", "-m", "pytest", "-ra", "-q", "-p", "no:cacheprovider", "--timeout=900",
                     "--continue-on-collection-errors", f"--junitxml={x}"], cwd=os.environ.get("VERIF_REPO", "/repo"),
-                   capture_output=True, text=True)
+                   capture_output=True, text=True,
+                   env=dict(os.environ, PYTHONPATH=os.path.join(os.environ.get("VERIF_REPO", "/repo"), "src")))
     ok = set()
     for tc in ET.parse(x).getroot().iter("testcase"):
         if not any(c.tag in ("failure", "error", "skipped") for c in tc):
